@@ -479,6 +479,89 @@ theorem recvLoop_again_vals (p : RPhase) (fs : List RFilter) (idx : Nat) (s : FS
       · exact h1
       · exact h1
 
+/-- the `case` number of downStream.receive that runs the receiver filters of a phase -/
+def pn : RPhase → Nat
+  | .BeforeRoute => DownFilter
+  | .AfterRoute => DownFilterAfterRoute
+  | .AfterChooseHost => DownFilterAfterChooseHost
+
+theorem recvPhaseOf_pn (p : RPhase) : recvPhaseOf (pn p) = some p := by cases p <;> rfl
+
+theorem recvPhaseOf_eq {n : Nat} {p : RPhase} (h : recvPhaseOf n = some p) : n = pn p := by
+  unfold recvPhaseOf at h
+  split at h
+  · cases h; assumption
+  · split at h
+    · cases h; assumption
+    · split at h
+      · cases h; assumption
+      · cases h
+
+/-- what the last invocation of a pass tells about the state the pass leaves (pass started with no again-phase) -/
+theorem recvLoop_last (p : RPhase) (fs : List RFilter) (idx : Nat) (s : FState) (h0 : s.again = InitPhase) :
+    ((recvLoop p fs idx s).1.again ≠ InitPhase →
+      ∃ iv, (recvLoop p fs idx s).2.getLast? = some iv ∧ accepted p iv.2.status = true ∧
+        (recvLoop p fs idx s).1.again + 1 = pn p ∧ (recvLoop p fs idx s).1.cursor = iv.1) ∧
+    (∀ iv, (recvLoop p fs idx s).2.getLast? = some iv → iv.2.status = .termination →
+      (recvLoop p fs idx s).1.cleaned = true) := by
+  induction fs generalizing idx s with
+  | nil => exact ⟨fun h => absurd h0 h, fun iv h => by simp [recvLoop] at h⟩
+  | cons f rest ih =>
+    simp only [recvLoop]
+    split
+    · exact ih _ _ h0
+    · generalize hv : f.verdictAt (s.rcalls idx) = v
+      have a1 : (applyAct { s with rcalls := bump s.rcalls idx } v.act).again = InitPhase := by
+        rw [← h0]; cases v.act <;> simp [applyAct, sendHijack] <;> split <;> simp [sendHijack]
+      generalize hs1 : applyAct { s with rcalls := bump s.rcalls idx } v.act = s1 at a1 ⊢
+      cases hst : v.status
+      · -- Continue
+        simp only [recvSwitch, receiverHandler, applyHandler]
+        obtain ⟨i1, i2⟩ := ih (idx + 1) s1 a1
+        refine ⟨fun h => ?_, fun iv hl ht => ?_⟩
+        · obtain ⟨iv, hl, r⟩ := i1 h
+          refine ⟨iv, ?_, r⟩
+          cases hl' : (recvLoop p rest (idx + 1) s1).2 with
+          | nil => rw [hl'] at hl; cases hl
+          | cons b r' => rw [hl'] at hl; rw [List.getLast?_cons_cons]; exact hl
+        · cases hl' : (recvLoop p rest (idx + 1) s1).2 with
+          | nil => rw [hl'] at hl; simp at hl; subst hl; rw [hst] at ht; cases ht
+          | cons b r' => rw [hl', List.getLast?_cons_cons] at hl; exact i2 iv (by rw [hl']; exact hl) ht
+      · -- Stop
+        simp only [recvSwitch, receiverHandler, applyHandler]
+        exact ⟨fun h => absurd a1 h, fun iv hl ht => by simp at hl; subst hl; rw [hst] at ht; cases ht⟩
+      · -- termination
+        simp only [recvSwitch, receiverHandler, applyHandler, cleanStream]
+        exact ⟨fun h => absurd a1 h, fun _ _ _ => trivial⟩
+      · -- ReMatchRoute
+        simp only [recvSwitch, receiverHandler, applyHandler]
+        split
+        · rename_i hp
+          subst hp
+          exact ⟨fun _ => ⟨(idx, v), rfl, by simp [accepted, hst], rfl, rfl⟩,
+            fun iv hl ht => by simp at hl; subst hl; rw [hst] at ht; cases ht⟩
+        · exact ⟨fun h => absurd a1 h, fun iv hl ht => by simp at hl; subst hl; rw [hst] at ht; cases ht⟩
+      · -- ReChooseHost
+        simp only [recvSwitch, receiverHandler, applyHandler]
+        split
+        · rename_i hp
+          subst hp
+          exact ⟨fun _ => ⟨(idx, v), rfl, by simp [accepted, hst], rfl, rfl⟩,
+            fun iv hl ht => by simp at hl; subst hl; rw [hst] at ht; cases ht⟩
+        · exact ⟨fun h => absurd a1 h, fun iv hl ht => by simp at hl; subst hl; rw [hst] at ht; cases ht⟩
+      · -- unknown
+        simp only [recvSwitch, receiverHandler, applyHandler]
+        obtain ⟨i1, i2⟩ := ih (idx + 1) s1 a1
+        refine ⟨fun h => ?_, fun iv hl ht => ?_⟩
+        · obtain ⟨iv, hl, r⟩ := i1 h
+          refine ⟨iv, ?_, r⟩
+          cases hl' : (recvLoop p rest (idx + 1) s1).2 with
+          | nil => rw [hl'] at hl; cases hl
+          | cons b r' => rw [hl'] at hl; rw [List.getLast?_cons_cons]; exact hl
+        · cases hl' : (recvLoop p rest (idx + 1) s1).2 with
+          | nil => rw [hl'] at hl; simp at hl; subst hl; rw [hst] at ht; cases ht
+          | cons b r' => rw [hl', List.getLast?_cons_cons] at hl; exact i2 iv (by rw [hl']; exact hl) ht
+
 theorem sendSwitch_next_iff (st : FStatus) : sendSwitch st = .next ↔ continues st = true := by
   cases st <;> simp [sendSwitch, continues]
 
